@@ -301,6 +301,10 @@ def c04(ctx, rep):
     # what the initializer block may contain is Go, not a format string: percent signs as operator, in Printf verbs, in comments
     init_pct = "{\npackage main\n\nimport \"fmt\"\n\n// 100% of the initializer is copied\nfunc rem(a, b int) int { return a % b }\n\nvar banner = fmt.Sprintf(\"%d%% %s %v\", rem(7, 4), \"x\", 1.5)\n}\n"
     fam.append(("init-percent", init_pct + "A <- 'a' { return banner, nil }\n", [[], ["-optimize-parser"], ["-optimize-grammar", "-nolint"], ["-cache"]]))
+    # the initializer's first token on the line of the opening brace, a build constraint first, a comment on the brace's line
+    for nm, init in (("same-line", "{ package main }\n"), ("same-line-imports", "{ package main\nimport \"fmt\"\nvar _ = fmt.Sprint\n}\n"),
+                     ("constraint", "{ //go:build !never\n\npackage main\n}\n"), ("brace-comment", "{ // generated parser\npackage main\n}\n")):
+        fam.append(("init-" + nm, init + "A <- 'a' { return 1, nil }\n", [[], ["-nolint"], ["-nolint", "-optimize-parser"], ["-optimize-grammar", "-nolint", "-cache"]]))
     fam.append(("block-percent", hdr + "A <- d:[0-9]+ { return len(c.text) % 3, nil } / &{ return 7%2 == 1, nil } 'x' #{ c.state[\"k\"] = 5 % 4; return nil }\n",
                 [[], ["-optimize-parser"], ["-optimize-grammar"]]))
     ucl = re.findall(r'^\t"(\w+)":', open(os.path.join(C.REPO, "unicode_classes.go")).read(), re.M)
